@@ -313,3 +313,23 @@ c03_core!(c03_dispatch_q0, 0, 0);
 //@ oracle: expected (respond?, dispatched?, error code, echoed query) computed from the statement; pairwise equality across the three compositions
 //@ stubs: Router::get -> "/a" only (lookup is C07); std::str::from_utf8 -> ASCII check (exact on the assumed byte domain); alloc::fmt::format -> stub; <RepeError as Display>::fmt -> writes nothing; RandomState::new -> fixed keys
 c03_core!(c03_dispatch_q1, 1, 0);
+
+//@ prop: C03
+//@ tier: experimental
+//@ clause: validation of the UTF-8 stub used by the dispatch harnesses: on the byte domain they assume (ASCII or >= 0xf8) the stub accepts exactly what std::str::from_utf8 accepts
+//@ funcs: std::str::from_utf8 (real) vs verif_common::from_utf8_ascii_stub
+//@ symbolic: one byte from the assumed domain
+//@ bounds: 1-byte input (passed once on the unchanged tree in 1404 s using 12.6 GB - too heavy for a registered command)
+//@ oracle: is_ok() of both agree
+//@ timeout: 1800
+#[kani::proof]
+#[kani::unwind(70)]
+fn c03_utf8_stub_exact_1byte() {
+    let b: [u8; 1] = kani::any();
+    kani::assume(ascii_or_never_valid(b[0]));
+    let real = std::str::from_utf8(&b).is_ok();
+    let stub = from_utf8_ascii_stub(&b).is_ok();
+    assert!(real == stub, "UTF-8 stub disagrees with std on its assumed domain");
+    kani::cover!(real);
+    kani::cover!(!real);
+}
